@@ -38,6 +38,14 @@
 #include <cpuid.h>
 #endif
 
+#ifdef RWEATHER_SKINNY_C_VERIF
+/* Verification hook H2: run-time cap on the back end that the probes may
+   report (0 = generic only, 1 = up to 128-bit, 2 = no cap).  The cap is
+   applied after the real probe, so it can never select a back end that
+   the CPU does not support. */
+int _skinny_verif_backend_cap = 2;
+#endif
+
 int _skinny_has_vec128(void)
 {
     int detected = 0;
@@ -58,6 +66,10 @@ int _skinny_has_vec128(void)
 #endif
 #endif
 #endif
+#ifdef RWEATHER_SKINNY_C_VERIF
+    if (_skinny_verif_backend_cap < 1)
+        detected = 0;
+#endif
     return detected;
 }
 
@@ -74,6 +86,10 @@ int _skinny_has_vec256(void)
     __cpuid(7, eax, ebx, ecx, edx);
     detected = (ebx & (1 << 5)) != 0;
 #endif
+#endif
+#ifdef RWEATHER_SKINNY_C_VERIF
+    if (_skinny_verif_backend_cap < 2)
+        detected = 0;
 #endif
     return detected;
 }
